@@ -6,6 +6,7 @@ import (
 	"fmt"
 	"io"
 	"reflect"
+	"strings"
 	"time"
 
 	"go.sia.tech/core/gateway"
@@ -601,10 +602,19 @@ func guardPanic(fn func()) (p string) {
 
 // runGateway: handshake (matching or mismatching headers), then RPC objects
 // over mux streams.
-func runGateway(s *Session, exs []gwExchange, mismatch string) {
+func runGateway(s *Session, exs []gwExchange, mismatch string, addrLen [2]int) {
 	genesis := types.BlockID{1, 2, 3}
-	ha := gateway.Header{GenesisID: genesis, UniqueID: gateway.UniqueID{1}, NetAddress: "10.0.0.1:9981"}
-	hb := gateway.Header{GenesisID: genesis, UniqueID: gateway.UniqueID{2}, NetAddress: "10.0.0.2:9981"}
+	netAddr := func(host string, n int) string {
+		if n > len(host)+5 {
+			host = strings.Repeat("n", n-len(host)-6) + "." + host
+		}
+		return host + ":9981"
+	}
+	ha := gateway.Header{GenesisID: genesis, UniqueID: gateway.UniqueID{1}, NetAddress: netAddr("10.0.0.1", addrLen[0])}
+	hb := gateway.Header{GenesisID: genesis, UniqueID: gateway.UniqueID{2}, NetAddress: netAddr("10.0.0.2", addrLen[1])}
+	if addrLen[0] > 13 || addrLen[1] > 13 {
+		s.ea.inc("gateway.long-net-address")
+	}
 	switch mismatch {
 	case "genesis":
 		hb.GenesisID[5] ^= 1
